@@ -89,7 +89,7 @@ def run(ctx, rep):
     # Imsaak is a prayer time too: it is the Fajr of a rerun with perturbed parameters, and the minutes fallback applies only to
     # an extreme (replaced) Fajr - otherwise an Imsaak is fabricated where the Sun never reaches its altitude
     from . import imsaak as _imsaak
-    _imsaak.check(ctx, rep, 'R6.5')
+    _imsaak.check(ctx, rep, 'R6.5', entry=False)
     # whether an event occurs is decided from the Sun's declination of the requested date (Julian Day of that date)
     from . import shared, julian as _julian
     shared.include(ctx, rep, lambda c_, r_: _julian.check(c_, r_, 'R6.6'), {'R6.6'}, why='Julian Day of the requested date')
